@@ -48,8 +48,18 @@ fn main() {
     std::process::exit(2);
   }
   let opts = util::Opts::parse(&args[2..]);
-  let out = std::io::stdout();
-  let mut w = std::io::BufWriter::with_capacity(1 << 20, out.lock());
+  // The emulator's serial port writes guest bytes to fd 1. Protocol lines therefore go to a private duplicate
+  // of the original stdout, and fd 1 itself is pointed at /dev/null (streams that observe serial output
+  // re-point it at a file of their own).
+  let out = unsafe {
+    use std::os::unix::io::FromRawFd;
+    let saved = libc::dup(1);
+    let null = libc::open(b"/dev/null\0".as_ptr() as *const libc::c_char, libc::O_WRONLY);
+    libc::dup2(null, 1);
+    libc::close(null);
+    std::fs::File::from_raw_fd(saved)
+  };
+  let mut w = std::io::BufWriter::with_capacity(1 << 20, out);
   // stream names are "<pid>" or "<pid>.<sub>", e.g. "c20.addr"
   let (pid, sub) = match args[1].find('.') {
     Some(i) => (&args[1][..i], &args[1][i + 1..]),
